@@ -29,6 +29,15 @@ def transitive_producers(g, e, disc):
     return seen
 
 
+def classify_died(g, d):
+    """call site + shape of known finding D18 (a statement judged dirty before its dyndep file, which adds restat, was
+    loaded, and clean afterwards)"""
+    if ("RefreshDyndepDependents" in d.stderr and "!edge->outputs_ready()" in d.stderr
+            and any(e.get('dd') and e.get('dd_restat') for e in g['edges'])):
+        return 'D18_dirty_before_dyndep_restat_clean_after'
+    return None
+
+
 class Sim:
     def __init__(self, probe, g, check=None):
         self.probe = probe
@@ -295,13 +304,7 @@ class Sim:
         try:
             res = self.execute(req)
         except ProbeDied as d:
-            known = None
-            if ("RefreshDyndepDependents" in d.stderr and "!edge->outputs_ready()" in d.stderr
-                    and any(e.get('dd') and e.get('dd_restat') for e in g['edges'])):
-                # call site + shape of known finding D18 (a statement judged dirty before its dyndep file, which adds
-                # restat, was loaded, and clean afterwards)
-                known = 'D18_dirty_before_dyndep_restat_clean_after'
-            self.add('C13', 'crash', 'SIM child died: ' + d.describe(), known=known)
+            self.add('C13', 'crash', 'SIM child died: ' + d.describe(), known=classify_died(g, d))
             self.stop = True
             return None
         self.last = dict(req=req, res=res, pred=pred)
@@ -852,3 +855,133 @@ def run_metamorphic(simA, ops, transform=None, prop='C10', what='declared-implic
                 simA.labels.add('dyndep_built_and_adds_generated_input')
     finally:
         simB.close()
+
+
+# ---------------------------------------------------------------------------------------------- C07 crash / interrupt
+POINTS = ['start.lock', 'start.rsp', 'finish.extractdeps', 'finish.restat', 'finish.plan', 'finish.rsp', 'finish.log', 'finish.deps',
+          'extractdeps.pre_remove', 'log.record.entry', 'deps.record.pre', 'log.recompact.pre_replace', 'replace.mid']
+
+
+def check_recovery(sim, targets, what, detail):
+    """after a crash / interrupt: the next invocation(s) must start normally and, once one succeeds, the tree must be
+    identical to a clean build and a further run must be a no-op"""
+    sim.synced = False
+    ok = False
+    for attempt in range(3):
+        res = sim.invoke(targets, j=2, oracles=False)
+        if res is None:
+            return
+        if res['phase'] in ('log', 'deps', 'parse'):
+            sim.add('C07', 'next invocation does not start normally after %s' % what, dict(detail, phase=res['phase'], err=res['err']))
+            return
+        if res['status'] == 0:
+            ok = True
+            break
+    if not ok:
+        sim.add('C07', 'build does not succeed any more after %s' % what, dict(detail, err=res['err']))
+        return
+    cont = Content(sim.g, sim.files)
+    stale = []
+    for e in sim.closure_for_content(targets, {}):
+        if e['phony']:
+            continue
+        for o in all_outs(e) + models.dd_outs(sim.g, e):
+            if sim.files.get(o, {}).get('c') != cont.expected(o):
+                stale.append(o)
+    if stale:
+        sim.add('C07', 'tree differs from a clean build after recovering from %s' % what, dict(detail, stale=stale))
+        return
+    if not sim.has_always_dirty(targets):
+        r2 = sim.invoke(targets, j=1, oracles=False)
+        if r2 is not None:
+            st2 = [ev['edge'] for ev in r2['trace'] if ev['ev'] == 'start']
+            if st2:
+                sim.add('C07', 'build after recovery from %s is not converged' % what, dict(detail, started=st2))
+
+
+def run_crash_history(sim, ops, spec):
+    """spec: dict(mode='point'|'runner'|'interrupt', point=, hit=, n=, touched=[idx..])"""
+    if not sim.establish():
+        return
+    ops = list(sim.expand(ops))
+    # play the history; the LAST build op is the one that is stopped
+    last_build = max([i for i, o in enumerate(ops) if o['op'] == 'build'] or [-1])
+    if last_build < 0:
+        return
+    for i, op in enumerate(ops):
+        if sim.stop:
+            return
+        if op['op'] != 'build':
+            sim.apply_change(op)
+            continue
+        if i < last_build:
+            if not op.get('faults'):
+                sim.build(op)
+            continue
+        if any(f['known'] for f in sim.findings):
+            return
+        # make sure there is work to stop: every source changes
+        for s_ in sim.g['srcs']:
+            if not s_.startswith('ddsrc'):
+                sim.write(s_, sim.new_content(s_, 5))
+        targets = [key(e) for e in sim.g['edges']]
+        extra = {}
+        if spec['mode'] == 'point':
+            extra['crash_point'] = dict(point=spec['point'], hit=spec['hit'])
+        elif spec['mode'] == 'runner':
+            extra['crash_runner_call'] = spec['n']
+        else:
+            extra['interrupt_at'] = spec['n']
+            cmds = sim.cmd_edges()
+            extra['touched_on_interrupt'] = [key(cmds[t % len(cmds)]) for t in spec.get('touched', [])] if cmds else []
+        req = sim.request(targets, j=op['j'], k=1, sched=op['sched'], extra=extra)
+        try:
+            res = sim.execute(req)
+        except ProbeDied as d:
+            sim.add('C13', 'crash', 'SIM child died: ' + d.describe(), known=classify_died(sim.g, d))
+            return
+        sim.absorb(res)
+        detail = dict(spec=spec, targets=targets)
+        if spec['mode'] == 'interrupt':
+            interrupted = any(ev['ev'] == 'interrupt' for ev in res['trace'])
+            if not interrupted:
+                sim.labels.add('stop_not_reached')
+                # nothing was stopped (the build was over earlier): plain build, nothing to check here
+                sim.synced = False
+                return
+            sim.labels.add('interrupted')
+            iev = [ev for ev in res['trace'] if ev['ev'] == 'interrupt'][0]
+            if res['status'] != 130:
+                sim.add('C07', 'interrupted build does not report the interrupt status', dict(detail, status=res['status'], err=res['err']))
+            if LOCK in sim.files:
+                sim.add('C07', 'lock file left behind after an interrupt', detail)
+            for rk in iev['running']:
+                e = sim.edge_by_key(rk)
+                touched = rk in extra['touched_on_interrupt']
+                has_df = bool(models.depfile_path(e))
+                for o in all_outs(e):
+                    c = sim.files.get(o, {}).get('c', '')
+                    if touched and c.startswith('partial:'):
+                        sim.add('C07', 'output modified by an interrupted command was not removed', dict(detail, output=o, edge=rk))
+                    elif has_df and o in sim.files:
+                        sim.add('C07', 'output of an interrupted command with a depfile was not removed', dict(detail, output=o, edge=rk))
+                if has_df and touched and models.depfile_path(e) in sim.files:
+                    sim.add('C07', 'depfile of an interrupted command was not removed', dict(detail, edge=rk))
+                if touched:
+                    sim.labels.add('interrupt_with_partial_output')
+            check_recovery(sim, targets, 'an interrupt', detail)
+        else:
+            if not res.get('crashed'):
+                sim.labels.add('stop_not_reached')
+                sim.synced = False
+                return
+            sim.labels.add('crashed_at_' + (spec.get('point') or 'runner_call'))
+            running = [ev for ev in res['trace'] if ev['ev'] == 'start']
+            fin = set(ev['edge'] for ev in res['trace'] if ev['ev'] == 'finish')
+            if any(ev['edge'] not in fin for ev in running):
+                sim.labels.add('crash_with_command_running')
+            if fin:
+                sim.labels.add('crash_between_persistence_steps')
+            sim.files.pop(LOCK, None) if False else None
+            check_recovery(sim, targets, 'a crash at %s' % (spec.get('point') or 'runner call %d' % spec.get('n', -1)), detail)
+        return
